@@ -313,6 +313,14 @@ func runC13CaptureRestore(c *Ctx, fwd string, f, g, closure *ssa.Function, mc *s
 					return true
 				}
 			case ssa.CallInstruction:
+				// a helper that writes the handed value into the field
+				if cal := calleeOf(x); cal != nil && hasModPrefix(cal) && len(cal.Blocks) > 0 {
+					for k, a := range x.Common().Args {
+						if stripConv(a) == ssa.Value(ci.Param) && k < len(cal.Params) && storesParamToPodField(cal, k, ci.Field) {
+							return true
+						}
+					}
+				}
 				if ci.Field != "Status" {
 					return false
 				}
@@ -398,4 +406,22 @@ func runC13CaptureRestore(c *Ctx, fwd string, f, g, closure *ssa.Function, mc *s
 		}
 	}
 	return n
+}
+
+// storesParamToPodField: on every path, fn stores its parameter k into field fld of a PodInfo.
+func storesParamToPodField(fn *ssa.Function, k int, fld string) bool {
+	prm := fn.Params[k]
+	isSt := func(in ssa.Instruction) bool {
+		st, ok := in.(*ssa.Store)
+		if !ok {
+			return false
+		}
+		f, _ := podFieldOfAddr(st.Addr)
+		return f == fld && stripConv(st.Val) == ssa.Value(prm)
+	}
+	if len(instrsIn(fn, isSt)) == 0 {
+		return false
+	}
+	_, _, found := reachAvoiding([]cfgPos{entryPos(fn)}, isReturn, isSt, nil)
+	return !found
 }
